@@ -69,7 +69,18 @@ func (r *Run) replayObligation(o *Obligation) *ReplayFile {
 		rf.Note = "replay did not run: " + err.Error()
 		return rf
 	}
-	rf.Confirmed = strings.Contains(out, "REPLAY-MISMATCH") || strings.Contains(out, "REPLAY-PANIC")
+	// a panic of the replayed code confirms a no-panic obligation; for any other obligation it only says
+	// that the template does not fit the model (e.g. a cell the template was not written for)
+	rf.Confirmed = strings.Contains(out, "REPLAY-MISMATCH") || (strings.Contains(out, "REPLAY-PANIC") && strings.Contains(o.Name, "/safe:"))
+	if !rf.Confirmed {
+		if sout, ok := runScenarios(r.Repo, r.Verif, []string{o.Name}); ok && strings.Contains(sout, "REPLAY-MISMATCH "+o.Name) {
+			rf.Confirmed = true
+			rf.Output = trunc(sout, 3000)
+			rf.Pkg = "interp"
+			rf.TestSrc = ""
+			rf.Note = "fixed scenario of /verif/replays/helpers run against the real code (the model-instantiated template did not reproduce)"
+		}
+	}
 	return rf
 }
 
